@@ -13,6 +13,7 @@ NA = {
     "C33": "writer->reader composition is a deterministic function of the packet list (DESIGN.md §7)",
     "C35": "writer->reader composition is a deterministic function of the packet list (DESIGN.md §7)",
     "C36": "writer->reader composition is a deterministic function of the record list (DESIGN.md §7)",
+    "C15": "codec negotiation is a pure function of the local codec registrations and the remote description's codec lists: no schedule, clock, peer timing or fault can change which codecs are matched, so it is input generation, not simulation (DESIGN.md §7)",
     "C38": "pure encode/decode round trips of value types (DESIGN.md §7)",
 }
 
@@ -49,6 +50,9 @@ CHECKS = {
     "C18": ("pcsim", "exploration",
             "A real connected (or still connecting) pair under the focus-coop scheduler: 2-4 tasks create in-band channels and negotiated channels with explicit ids on both peers, close them locally and remotely and send, while SCTP start-up, the open handshake and the accept loop of both peers are scheduled at every lock/atomic site of datachannel.go and sctptransport.go; a sampler records every channel's stream id at every step. Oracle: a pion-assigned id is even iff the local DTLS role is client, is never 65535, is not the id of a channel that already had it, and an id once set never changes.",
             PC_NOTE + " Both DTLS roles are covered by letting either peer offer. Collisions caused by an application passing an explicit id that is already in use are counted, not reported (pion does not check them; the property is about assigned ids).", TECH_COOP + " (focus-coop on datachannel.go/sctptransport.go inside a whole-pair simulation)", "§6 C18"),
+    "C21": ("pcsim", "exploration",
+            "Two real PeerConnections on the simulated network are brought to one of five points of the connection's life (nothing negotiated, offer applied and gathering, ICE/DTLS in progress, connected, data and media flowing); 1-4 goroutines then call Close/GracefulClose on one peer at seeded fake-time offsets (0-1500 ms, many at the same instant), optionally while another goroutine keeps calling the mutating API and while the peer's event handlers take 0-700 ms of fake time on the connection's own goroutines. Oracle: every call returns (180 s fake budget); signaling and connection state are closed and stay closed; each of 10 mutating calls returns InvalidStateError; the connection-state handler reports nothing after closed; at the first quiescent instant after a GracefulClose returned no goroutine started by that peer (pprof-label attribution, runtime goroutine profile) is alive.",
+            PC_NOTE + " The interleaving of close calls started at the same fake instant is the Go scheduler's (GOMAXPROCS=1 worker), not chosen by the PRNG; what the PRNG chooses is the point of the connection's life, the call mix and offsets, handler durations and the network.", TECH_PC + "; goroutine census via pprof labels at a quiescent instant", "§6 C21"),
     "C20": ("pcsim", "exploration",
             "Same engine as C18 with local Close/GracefulClose, remote close, Send and PeerConnection.Close/GracefulClose tasks around the open handshake. A sampler reads readyState of every channel object (local and announced, both peers) at every scheduling step. Oracle: the sampled sequence never moves backwards along connecting < open < closing < closed; OnOpen and OnClose each run at most once per registration; Send on a channel that is not open returns an error; a channel on which Close returned is closed once both PeerConnections are closed.",
             PC_NOTE + " Runs in which a GracefulClose waits forever for a stream reset the remote never sends (channel closed before its open message was delivered; documented GracefulClose behaviour) are counted inconclusive.", TECH_COOP + " (focus-coop inside a whole-pair simulation, per-step state sampler)", "§6 C20"),
